@@ -1,5 +1,6 @@
 //! C11: conditional compilation.  A case is a `;`-separated list of directive lines:
 //!   t N | use X | define X [v] | undef X | if <cond words> | ifdef X | ifndef X | elif <cond words> | else | endif
+//! Several files: `F main.rssl : l ; l @ f.h : l ; l` with the further lines  include <file> | pragma <words> | bogus
 //! Output: OK <surviving tokens> | ERR <PreprocessError variant>
 use crate::common::*;
 use rssl::text::tokens::Token;
@@ -14,6 +15,7 @@ pub fn render(case: &str) -> String {
         match w[0] {
             "t" => s += &format!("x{}\n", w[1]),
             "use" => s += &format!("{}\n", w[1]),
+            "include" => s += &format!("#include \"{}\"\n", w[1]),
             _ => s += &format!("#{}\n", w.join(" ")),
         }
     }
@@ -52,9 +54,19 @@ fn run_probe(k: usize) -> String {
 
 pub fn run_line(case: &str) -> String {
     if let Some(k) = case.trim().strip_prefix("I ") { return run_probe(k.trim().parse().unwrap_or(usize::MAX)); }
-    let src = render(case);
     let mut sm = rssl::text::SourceManager::new();
-    let mut inc = MemFiles::single("main.rssl", &src);
+    let mut inc = match case.trim().strip_prefix("F ") {
+        Some(rest) => {
+            // `name : lines @ name : lines`
+            let mut files = std::collections::HashMap::new();
+            for sec in rest.split('@') {
+                let (name, body) = match sec.split_once(':') { Some(x) => x, None => return "BAD-CASE".into() };
+                files.insert(name.trim().to_string(), render(body));
+            }
+            MemFiles { files }
+        }
+        None => MemFiles::single("main.rssl", &render(case)),
+    };
     match rssl::preprocess::preprocess("main.rssl", &mut sm, &mut inc, &[]) {
         Ok(tokens) => {
             let toks = rssl::preprocess::prepare_tokens(&tokens);
@@ -164,10 +176,107 @@ fn gen_tree(rng: &mut Rng, depth: u32, counter: &mut u32, out: &mut Vec<String>)
     }
 }
 
+
+/// lines of one file of an include graph; `later` = the files this one may include (acyclic).
+/// `dead` = the lines are known to sit in a group that is not selected: there the directives that would be
+/// rejected elsewhere (missing files, unknown pragmas, unknown directives) are generated freely
+fn gen_file_lines(rng: &mut Rng, later: &[&str], counter: &mut u32, depth: u32, dead: bool, out: &mut Vec<String>) {
+    let n = rng.range(1, 4);
+    for _ in 0..n {
+        let risky = dead && rng.chance(1, 2) || rng.chance(1, 40);
+        if risky {
+            out.push((*rng.pick(&["include missing.h", "pragma nonsense", "pragma 5", "pragma", "bogus", "pragma once", "include main.rssl", "define A 7", "undef A"])).to_string());
+            continue;
+        }
+        match rng.below(14) {
+            0 | 1 | 2 => { *counter += 1; out.push(format!("t {}", *counter)); }
+            3 => out.push(format!("use {}", rng.pick(&["A", "B", "U", "G"]))),
+            4 => out.push((*rng.pick(&["define A 3", "define B", "define U 1", "define G", "undef A", "undef G"])).to_string()),
+            5 | 6 if !later.is_empty() => out.push(format!("include {}", rng.pick(later))),
+            7 => out.push((*rng.pick(&["pragma once", "pragma once", "pragma warning ( disable 4 )"])).to_string()),
+            8 if depth > 0 && rng.chance(1, 4) => {
+                // an unbalanced directive: the chain is shared with the including file
+                out.push((*rng.pick(&["endif", "else", "if 1", "if 0", "ifdef G", "elif 1"])).to_string());
+            }
+            9 | 10 | 11 if depth > 0 => {
+                let g = *rng.pick(&["if 0", "if 1", "if 0", "ifdef A", "ifdef G", "ifndef G", "ifndef U", "if defined ( G ) || A == 3"]);
+                out.push(g.to_string());
+                gen_file_lines(rng, later, counter, depth - 1, dead || g == "if 0", out);
+                let mut taken = g == "if 1";
+                let elifs = rng.below(2);
+                for _ in 0..elifs {
+                    let e = *rng.pick(&["elif 0", "elif 1", "elif defined G", "elif A"]);
+                    out.push(e.to_string());
+                    gen_file_lines(rng, later, counter, depth - 1, dead || taken || e == "elif 0", out);
+                    taken = taken || e == "elif 1";
+                }
+                if rng.chance(1, 2) {
+                    out.push("else".into());
+                    gen_file_lines(rng, later, counter, depth - 1, dead || taken, out);
+                }
+                out.push("endif".into());
+            }
+            _ => { *counter += 1; out.push(format!("t {}", *counter)); }
+        }
+    }
+}
+
+fn gen_graph(rng: &mut Rng) -> String {
+    let names = ["main.rssl", "a.h", "b.h", "c.h"];
+    let k = rng.range(1, 4) as usize;
+    let mut counter = 0;
+    let mut secs = Vec::new();
+    for i in 0..k {
+        let mut ls = Vec::new();
+        gen_file_lines(rng, &names[i + 1..k], &mut counter, 2, false, &mut ls);
+        if i == 0 { ls.push("use A ; use G ; use U".into()); }
+        secs.push(format!("{} : {}", names[i], ls.join(" ; ")));
+    }
+    format!("F {}", secs.join(" @ "))
+}
+
+/// include graphs with a cycle, whose end the once-set or the depth limit decides
+const CYCLES: &[&str] = &[
+    "F main.rssl : include main.rssl",
+    "F main.rssl : pragma once ; t 1 ; include main.rssl ; t 2",
+    "F main.rssl : if 0 ; pragma once ; endif ; t 1 ; include main.rssl",
+    "F main.rssl : ifndef G ; define G ; include main.rssl ; t 1 ; endif ; t 2",
+    "F main.rssl : include a.h ; t 1 @ a.h : include b.h ; t 2 @ b.h : include a.h ; t 3",
+    "F main.rssl : include a.h ; t 1 @ a.h : pragma once ; include b.h ; t 2 @ b.h : include a.h ; t 3",
+    "F main.rssl : include a.h ; t 1 @ a.h : ifdef G ; pragma once ; endif ; include b.h @ b.h : include a.h ; t 3",
+    "F main.rssl : include a.h ; endif ; t 1 @ a.h : if 1 ; t 2",
+    "F main.rssl : if 0 ; include a.h ; t 1 ; endif ; t 3 @ a.h : endif ; t 2 ; if 1",
+    "F main.rssl : if 1 ; include a.h ; t 1 ; endif ; t 3 @ a.h : else ; t 2",
+    "F main.rssl : include a.h ; include a.h @ a.h : if 0 ; else ; pragma once ; endif ; t 2",
+    "F main.rssl : include a.h ; include a.h @ a.h : if 1 ; else ; pragma once ; endif ; t 2",
+];
+
 pub fn gen_cases(seed: u64, n: usize, thorough: bool) -> Vec<String> {
     let mut rng = Rng::new(seed);
     let mut out = Vec::new();
     for k in 0..INCLUDE_PROBES.len() { out.push(format!("I {}", k)); }
+    for c in CYCLES { out.push((*c).to_string()); }
+    // exhaustive: every sequence of up to 4 (thorough: 5) lines of the entry file over directives, includes and pragmas
+    {
+        let alpha = ["if 0", "if 1", "else", "endif", "include a.h", "include missing.h", "pragma once", "pragma nonsense", "bogus", "t"];
+        let max_len = if thorough { 5 } else { 4 };
+        for len in 1..=max_len {
+            let mut idx = vec![0usize; len];
+            loop {
+                let ls: Vec<String> = idx.iter().enumerate().map(|(i, &k)| if alpha[k] == "t" { format!("t {}", i + 1) } else { alpha[k].to_string() }).collect();
+                out.push(format!("F main.rssl : {} @ a.h : ifdef G ; pragma once ; else ; define G ; endif ; t 9", ls.join(" ; ")));
+                let mut j = 0;
+                while j < len {
+                    idx[j] += 1;
+                    if idx[j] < alpha.len() { break; }
+                    idx[j] = 0;
+                    j += 1;
+                }
+                if j == len { break; }
+            }
+        }
+    }
+    for _ in 0..n / 2 { out.push(gen_graph(&mut rng)); }
     // exhaustive directive sequences over the property's 12-symbol alphabet
     let alpha = ["if 0", "if 1", "ifdef D", "ifdef U", "ifndef D", "ifndef U", "elif 0", "elif 1", "else", "endif", "t", "define U 1"];
     let max_len = if thorough { 6 } else { 4 };
